@@ -190,11 +190,23 @@ class PropertiesDataBounds(PropertiesData):
                             # reversed so reverse its bounds (as per
                             # 7.1 of the conventions)
                             bounds_indices[-1] = slice(None, None, -1)
-                    elif data.size > 1 and int(index[-1]) < int(index[0]):
-                        # This 1-d variable has been reversed so
-                        # reverse its bounds (as per 7.1 of the
-                        # conventions)
-                        bounds_indices[-1] = slice(None, None, -1)
+                    elif data.size > 1:
+                        # Compare the first and last positions, having
+                        # made any negative integers positive
+                        size = data.shape[0]
+                        first = int(index[0])
+                        if first < 0:
+                            first += size
+
+                        last = int(index[-1])
+                        if last < 0:
+                            last += size
+
+                        if last < first:
+                            # This 1-d variable has been reversed so
+                            # reverse its bounds (as per 7.1 of the
+                            # conventions)
+                            bounds_indices[-1] = slice(None, None, -1)
 
                 new.set_bounds(self_bounds[tuple(bounds_indices)], copy=False)
 
